@@ -145,7 +145,7 @@ func HarnessC16History() {
 	d := vInt64("d")
 	probeOp, probeName := vChoice("probe.op", 4), 0
 	if probeOp < 2 {
-		probeName = vChoice("probe.name", c16Names)
+		probeName = vChoice("probe.name", vParam("P"))
 	}
 	vFreeze()
 	vShare(tpl) // the loaded Template and every AST it holds
@@ -155,7 +155,7 @@ func HarnessC16History() {
 	for i := 0; i < h; i++ {
 		op, name := vChoice("op", 4), 0
 		if op < 2 {
-			name = vChoice("name", c16Names)
+			name = vChoice("name", vParam("P"))
 		}
 		hd := vInt64("hd")
 		c16Op(tpl, op, name, hd, s)
@@ -217,4 +217,34 @@ func HarnessC16Dump() {
 	}
 	vCover("probed")
 	vAssert(c16Same(base, again), "result-does-not-depend-on-earlier-calls")
+}
+
+
+var c16SharedUser = &struct{ Name string }{"shared"}
+
+// HarnessC16Pointer: the same Go pointer handed to several calls converts the same way every time, also after a call
+// whose data binding failed half way.
+func HarnessC16Pointer() {
+	c16ErrorPage, c16Debug = "err", false
+	tpl := c16Tree()
+	good := map[string]any{"u": c16SharedUser}
+	switch vChoice("history", 5) {
+	case 1:
+		_, ferr := tpl.String("prof", map[string]any{"u": c16SharedUser, "zchan": make(chan int)})
+		vAssert(ferr != nil, "faulty-template-fails")
+	case 2:
+		_, ferr := EvaluateString("{{ u.name }}", map[string]any{"u": c16SharedUser, "loop": 1, "zz": func() {}})
+		vAssert(ferr != nil, "faulty-template-fails")
+	case 3:
+		o, ferr := tpl.String("prof", good)
+		vAssert(ferr == nil && o == "<shared>", "page-shows-the-data-of-this-call")
+	case 4:
+		w := &vWriter{}
+		vAssert(tpl.Response(w, "prof", map[string]any{"u": c16SharedUser, "zchan": make(chan int)}) != nil, "faulty-template-fails")
+	}
+	out, err := tpl.String("prof", map[string]any{"u": c16SharedUser, "v": c16SharedUser})
+	vCover("probed")
+	vAssert(err == nil && out == "<shared>", "page-shows-the-data-of-this-call")
+	out2, err2 := EvaluateString("{{ a.name }}|{{ b.name }}", map[string]any{"a": c16SharedUser, "b": c16SharedUser})
+	vAssert(err2 == nil && out2 == "shared|shared", "page-shows-the-data-of-this-call")
 }
